@@ -94,16 +94,19 @@ pub open spec fn cs_set(s: Raw, ch: Seq<char>, d: Seq<char>, out: nat, sent: nat
     broadcast use ics_axioms;
 @end
 
-@fn contracts/cw20-ics20/src/state.rs reduce_channel_balance [closures: 1]
+@fn contracts/cw20-ics20/src/state.rs reduce_channel_balance [closures: 1; no_panic: 1]
 @ensures C11.reduce_checked C12
     r is Ok ==> cs_of(old(storage).view(), channel@, denom@) is Some && outstanding(old(storage).view(), channel@, denom@) >= amount@
         && final(storage).view() == cs_set(old(storage).view(), channel@, denom@, (outstanding(old(storage).view(), channel@, denom@) - amount@) as nat, total_sent(old(storage).view(), channel@, denom@))
 @ensures C12.reduce_err_no_change C11
     r is Err ==> final(storage).view() == old(storage).view()
+@ensures C12.reduce_succeeds_when_covered C11
+    cs_of(old(storage).view(), channel@, denom@) is Some && outstanding(old(storage).view(), channel@, denom@) >= amount@ ==> r is Ok
 @closure 1 C11.reduce_closure
     (res: Result<ChannelState, ContractError>)
     ensures res is Ok ==> orig is Some && orig->Some_0.outstanding.0 >= amount.0
-        && res->Ok_0 == (ChannelState { outstanding: Uint128((orig->Some_0.outstanding.0 - amount.0) as u128), total_sent: orig->Some_0.total_sent })
+        && res->Ok_0 == (ChannelState { outstanding: Uint128((orig->Some_0.outstanding.0 - amount.0) as u128), total_sent: orig->Some_0.total_sent }),
+        (orig is Some && orig->Some_0.outstanding.0 >= amount.0) ==> res is Ok
 @prefix
     broadcast use ics_axioms;
 @end
@@ -257,7 +260,7 @@ pub open spec fn step_receive(s: Raw, t: Raw, packet: IbcPacket, msgs: Seq<SubMs
     })
 }
 
-@fn contracts/cw20-ics20/src/ibc.rs do_ibc_packet_receive
+@fn contracts/cw20-ics20/src/ibc.rs do_ibc_packet_receive [no_panic: 1]
 @ensures C12.receive_exact C11 C18
     r is Ok ==> step_receive(old(deps.storage).view(), final(deps.storage).view(), *packet, r->Ok_0.messages@)
         && r->Ok_0.acknowledgement is Some && is_success_ack(r->Ok_0.acknowledgement->Some_0@)
@@ -268,7 +271,7 @@ pub open spec fn step_receive(s: Raw, t: Raw, packet: IbcPacket, msgs: Seq<SubMs
     proof { lemma_ns6(); }
 @end
 
-@fn contracts/cw20-ics20/src/ibc.rs ibc_packet_receive [closures: 1]
+@fn contracts/cw20-ics20/src/ibc.rs ibc_packet_receive [closures: 1; no_panic: 1]
 @ensures C12.receive_never_aborts
     r is Ok && r->Ok_0.acknowledgement is Some
 @ensures C12.success_ack_means_paid C11
